@@ -208,3 +208,400 @@ theorem parseValueExpr_of_eventually {inp r : List Char} {v : VExpr} {n : Nat}
   exact h _ (by omega)
 
 end Okane.ExprSyntax
+
+namespace Okane.DocAccept
+open Okane Okane.Spec.Doc Okane.Comb Okane.Literal Okane.ExprSyntax
+open Okane.ExprParse (stops ExprFollow)
+
+local notation "𝔸" => Dialect.accepted
+
+/-! ## character facts -/
+
+theorem opChar_facts {c : Char} (h : c = '+' ∨ c = '-' ∨ c = '*' ∨ c = '/' ∨ c = ')') :
+    ExprSyntax.isSpace c = false ∧ isNumChar c = false ∧ ExprSyntax.isCommodityChar c = false := by
+  rcases h with rfl | rfl | rfl | rfl | rfl <;> decide
+
+theorem digit_eq_digitChar {c : Char} (h : c.isDigit = true) : ∃ k, k < 10 ∧ c = digitChar k := by
+  simp only [Char.isDigit, Bool.and_eq_true, decide_eq_true_eq] at h
+  have h1 : 48 ≤ c.val.toNat := h.1
+  have h2 : c.val.toNat ≤ 57 := h.2
+  refine ⟨c.toNat - 48, by show c.val.toNat - 48 < 10; omega, ?_⟩
+  unfold digitChar
+  have : 48 + (c.toNat - 48) = c.toNat := by show 48 + (c.val.toNat - 48) = c.val.toNat; omega
+  rw [this, Char.ofNat_toNat]
+
+theorem digitChar_not_commodity : ∀ k, k < 10 → ExprSyntax.isCommodityChar (digitChar k) = false := by decide
+
+theorem commodityChar_not_num {c : Char} (h : ExprSyntax.isCommodityChar c = true) : isNumChar c = false := by
+  cases hn : isNumChar c with
+  | false => rfl
+  | true =>
+    exfalso
+    simp only [isNumChar, Bool.or_eq_true, beq_iff_eq] at hn
+    rcases hn with (hd | rfl) | rfl
+    · obtain ⟨k, hk, rfl⟩ := digit_eq_digitChar hd
+      rw [digitChar_not_commodity k hk] at h
+      cases h
+    · exact absurd h (by decide)
+    · exact absurd h (by decide)
+
+theorem numChar_not_space' {c : Char} (h : isNumChar c = true) : Comb.isSpace c = false :=
+  ExprParse.numChar_not_space h
+
+theorem digit_not_space {c : Char} (h : c.isDigit = true) : ExprSyntax.isSpace c = false :=
+  ExprParse.numChar_not_space (by simp [isNumChar, h])
+
+/-! ## positions after a parser run: at `r`, or after the blanks that follow `r` -/
+
+/-- what the parser leaves when the grammar ends at `r`: `expr::amount` also takes the blanks after a number without
+commodity -/
+def After (r r' : List Char) : Prop := r' = r ∨ r' = skipSpaces r
+
+theorem After.skip {r r' : List Char} (h : After r r') : skipSpaces r' = skipSpaces r := by
+  rcases h with rfl | rfl
+  · rfl
+  · exact ExprParse.skipSpaces_idem r
+
+theorem After.sepOp {r r' : List Char} (h : After r r') (op : Char → Option BinOp) : sepOp op r' = sepOp op r := by
+  simp only [ExprSyntax.sepOp, h.skip]
+
+/-- follow sets: after a `value-expr` / `unary-expr`; after a `mul-expr`; after an `add-expr` -/
+def FU (r : List Char) : Prop := ExprFollow r = true
+def FM (r : List Char) : Prop := ExprFollow r = true ∧ sepOp mulOp r = none
+def FA (r : List Char) : Prop := FM r ∧ sepOp addOp r = none
+
+/-- blanks and then an operator or a closing parenthesis -/
+theorem follow_blank_op {s t : List Char} {c : Char} (hs : ∀ x ∈ s, Comb.isSpace x = true)
+    (hc : c = '+' ∨ c = '-' ∨ c = '*' ∨ c = '/' ∨ c = ')') :
+    ExprFollow (s ++ c :: t) = true ∧ skipSpaces (s ++ c :: t) = c :: t := by
+  obtain ⟨h1, h2, h3⟩ := opChar_facts hc
+  have hsk : skipSpaces (s ++ c :: t) = c :: t := dropWhile_append_stop hs (by simp; exact h1)
+  refine ⟨?_, hsk⟩
+  simp only [ExprFollow, hsk, Bool.and_eq_true]
+  refine ⟨?_, by simp [stops, h3]⟩
+  cases s with
+  | nil => simp [stops, h2]
+  | cons a s' =>
+    have ha := hs a (by simp)
+    cases hn : isNumChar a with
+    | false => simp [stops, hn]
+    | true => rw [numChar_not_space' hn] at ha; cases ha
+
+/-! ## 2. `amount-expr` -/
+
+theorem commodity_head_not_num {m r : List Char} (h : commodity m r) : stops isNumChar m = true := by
+  obtain ⟨s, rfl, hne, hs⟩ := plus_chr h
+  cases s with
+  | nil => exact absurd rfl hne
+  | cons c t =>
+    have := hs c (by simp)
+    rw [isCommodityChar_eq] at this
+    simp [stops, commodityChar_not_num this]
+
+/-- a number is not continued by what the grammar puts after it -/
+theorem amount_num_stop {m1 m2 r : List Char} (hs : G.star sp m1 m2) (hc : G.opt commodity m2 r)
+    (hf : ExprFollow r = true) : stops isNumChar m1 = true := by
+  obtain ⟨s, rfl, hsp⟩ := star_sp hs
+  cases s with
+  | cons a t =>
+    have ha := hsp a (by simp)
+    cases hn : isNumChar a with
+    | false => simp [stops, hn]
+    | true => rw [numChar_not_space' hn] at ha; cases ha
+  | nil =>
+    rcases hc with hc | rfl
+    · exact commodity_head_not_num hc
+    · simp only [ExprFollow, Bool.and_eq_true] at hf
+      exact hf.1
+
+/-- the commodity part of `expr::amount` -/
+theorem amount_tail {i m1 m2 r : List Char} {d : PDec} (hp : prettyDecimal i = .ok d m1) (hs : G.star sp m1 m2)
+    (hc : G.opt commodity m2 r) (hf : ExprFollow r = true) :
+    ∃ r', After r r' ∧ ∃ v, ExprSyntax.amount i = .ok v r' := by
+  obtain ⟨s, rfl, hsp⟩ := star_sp hs
+  simp only [ExprFollow, Bool.and_eq_true] at hf
+  rcases hc with hc | rfl
+  · obtain ⟨cs, rfl, hne, hcs⟩ := plus_chr hc
+    rw [isCommodityChar_eq] at hcs
+    have hstop : Stop Comb.isSpace (cs ++ r) := by
+      cases cs with
+      | nil => exact absurd rfl hne
+      | cons c t =>
+        have : Comb.isSpace c = false := ExprParse.commodityChar_not_space (hcs c (by simp))
+        simpa using this
+    have hsk : skipSpaces (s ++ (cs ++ r)) = cs ++ r := dropWhile_append_stop hsp hstop
+    have hr : stops ExprSyntax.isCommodityChar r = true := by
+      cases r with
+      | nil => rfl
+      | cons c t =>
+        cases hsc : ExprSyntax.isSpace c with
+        | true =>
+          cases hcc : ExprSyntax.isCommodityChar c with
+          | false => simp [stops, hcc]
+          | true => rw [ExprParse.commodityChar_not_space hcc] at hsc; cases hsc
+        | false =>
+          have := hf.2
+          rwa [ExprParse.skipSpaces_cons_nonspace _ hsc] at this
+    refine ⟨r, Or.inl rfl, .amt d (String.ofList cs), ?_⟩
+    simp only [ExprSyntax.amount, hp, hsk, ExprSyntax.commodity, ExprParse.takeWhile_append_stops hcs hr,
+      ExprParse.dropWhile_append_stops hcs hr]
+  · have hsk : skipSpaces (s ++ m2) = skipSpaces m2 := by
+      simp only [skipSpaces]
+      have hsp' : ∀ c ∈ s, ExprSyntax.isSpace c = true := hsp
+      rw [List.dropWhile_append_of_pos hsp']
+    refine ⟨skipSpaces m2, Or.inr rfl, .amt d (String.ofList []), ?_⟩
+    simp only [ExprSyntax.amount, hp, hsk, ExprSyntax.commodity, ExprParse.takeWhile_stops hf.2,
+      ExprParse.dropWhile_stops hf.2]
+
+/-- **`expr::amount` accepts a documented `amount-expr`** (in the accepted dialect: the number within range) -/
+theorem amount_acc {i r : List Char} (h : amountExpr 𝔸 i r) (hf : ExprFollow r = true) :
+    ∃ r', After r r' ∧ ∃ v, ExprSyntax.amount i = .ok v r' := by
+  obtain ⟨m1, hnum, m2, hs, hc⟩ := h
+  obtain ⟨d, hd⟩ := prettyDecimal_accept hnum (amount_num_stop hs hc hf)
+  exact amount_tail hd hs hc hf
+
+/-- the same amount without its sign -/
+theorem amount_acc_unsigned {i r : List Char} (h : amountExpr 𝔸 ('-' :: i) r) (hf : ExprFollow r = true) :
+    ∃ r', After r r' ∧ ∃ v, ExprSyntax.amount i = .ok v r' := by
+  obtain ⟨m1, hnum, m2, hs, hc⟩ := h
+  obtain ⟨d, hd⟩ := prettyDecimal_accept_unsigned hnum (amount_num_stop hs hc hf)
+  exact amount_tail hd hs hc hf
+
+theorem amountExpr_head {D : Dialect} {i r : List Char} (h : amountExpr D i r) :
+    ∃ c t, i = c :: t ∧ (c = '-' ∨ c.isDigit = true) := by
+  obtain ⟨m1, ⟨hnum, _⟩, _⟩ := h
+  exact commaDecimal_head hnum
+
+/-- an unsigned `amount-expr` begins with a digit: strip the sign of a signed one -/
+theorem amountExpr_unsigned_head {i r : List Char} (h : amountExpr 𝔸 ('-' :: i) r) :
+    ∃ c t, i = c :: t ∧ c.isDigit = true := by
+  obtain ⟨m1, ⟨hnum, _⟩, _⟩ := h
+  obtain ⟨s, b, he, hs, _, _, hall, _, c, t, rfl, hc⟩ := commaDecimal_text hnum
+  rcases hs with rfl | rfl
+  · simp only [List.cons_append, List.cons.injEq] at he
+    have := (C07.digit_ne hc).1
+    exact absurd he.1.symm this
+  · simp only [List.cons_append, List.cons.injEq, true_and] at he
+    exact ⟨c, t ++ m1, he, hc⟩
+
+/-! ## first characters -/
+
+theorem value_head {D : Dialect} {i r : List Char} (h : ValueExpr D i r) :
+    ∃ c t, i = c :: t ∧ (c = '(' ∨ c = '-' ∨ c.isDigit = true) := by
+  cases h with
+  | amount h =>
+    obtain ⟨c, t, rfl, hc⟩ := amountExpr_head h
+    exact ⟨c, t, rfl, Or.inr hc⟩
+  | paren h =>
+    cases h with
+    | mk _ _ _ => exact ⟨_, _, rfl, Or.inl rfl⟩
+
+theorem unary_head {D : Dialect} {i r : List Char} (h : UnaryExpr D i r) :
+    ∃ c t, i = c :: t ∧ (c = '(' ∨ c = '-' ∨ c.isDigit = true) := by
+  cases h with
+  | pos h => exact value_head h
+  | neg h => exact ⟨_, _, rfl, Or.inr (Or.inl rfl)⟩
+
+theorem mul_head {D : Dialect} {i r : List Char} (h : MulExpr D i r) :
+    ∃ c t, i = c :: t ∧ (c = '(' ∨ c = '-' ∨ c.isDigit = true) := by
+  cases h with
+  | mk h _ => exact unary_head h
+
+theorem add_head {D : Dialect} {i r : List Char} (h : AddExpr D i r) :
+    ∃ c t, i = c :: t ∧ (c = '(' ∨ c = '-' ∨ c.isDigit = true) := by
+  cases h with
+  | mk h _ => exact mul_head h
+
+theorem head_not_space {c : Char} (h : c = '(' ∨ c = '-' ∨ c.isDigit = true) : ExprSyntax.isSpace c = false := by
+  rcases h with rfl | rfl | h
+  · decide
+  · decide
+  · exact digit_not_space h
+
+theorem head_stop {i : List Char} (h : ∃ c t, i = c :: t ∧ (c = '(' ∨ c = '-' ∨ c.isDigit = true)) :
+    Stop Comb.isSpace i := by
+  obtain ⟨c, t, rfl, hc⟩ := h
+  have : Comb.isSpace c = false := head_not_space hc
+  simpa using this
+
+/-! ## follow sets inside an expression -/
+
+theorem mulRest_follow {D : Dialect} {m r : List Char} (h : MulRest D m r) (hf : FM r) : FU m := by
+  cases h with
+  | nil _ => exact hf.1
+  | cons c hs hc _ _ _ =>
+    obtain ⟨s, rfl, hsp⟩ := star_sp hs
+    exact (follow_blank_op hsp (by rcases hc with rfl | rfl <;> simp)).1
+
+theorem addRest_follow {D : Dialect} {m r : List Char} (h : AddRest D m r) (hf : FA r) : FM m := by
+  cases h with
+  | nil _ => exact hf.1
+  | cons c hs hc _ _ _ =>
+    obtain ⟨s, rfl, hsp⟩ := star_sp hs
+    obtain ⟨h1, h2⟩ := follow_blank_op (t := _) hsp (c := c) (by rcases hc with rfl | rfl <;> simp)
+    refine ⟨h1, ?_⟩
+    simp only [ExprSyntax.sepOp, h2]
+    rcases hc with rfl | rfl <;> rfl
+
+/-- before the closing parenthesis -/
+theorem close_follow {i2 r : List Char} (h : G.star sp i2 (')' :: r)) : FA i2 ∧ skipSpaces i2 = ')' :: r := by
+  obtain ⟨s, rfl, hsp⟩ := star_sp h
+  obtain ⟨h1, h2⟩ := follow_blank_op (t := r) hsp (c := ')') (by simp)
+  exact ⟨⟨⟨h1, by simp only [ExprSyntax.sepOp, h2]; rfl⟩, by simp only [ExprSyntax.sepOp, h2]; rfl⟩, h2⟩
+
+/-! ## 3. the mutual induction -/
+
+mutual
+/-- `value_expr` accepts a documented `value-expr` -/
+theorem value_acc : ∀ {i r : List Char}, ValueExpr 𝔸 i r → FU r →
+    ∃ r', After r r' ∧ ∃ n v, ∀ f, n ≤ f → valueExpr f i = .ok v r'
+  | _, _, .amount h, hf => by
+    obtain ⟨r', ha, v, hv⟩ := amount_acc h hf
+    obtain ⟨c, t, rfl, hc⟩ := amountExpr_head h
+    refine ⟨r', ha, 1, v, ?_⟩
+    intro f hf
+    obtain ⟨g, rfl⟩ : ∃ g, f = g + 1 := ⟨f - 1, by omega⟩
+    have hne : c ≠ '(' := by
+      rcases hc with rfl | hc
+      · decide
+      · intro e; subst e; revert hc; decide
+    rw [valueExpr_other _ _ hne, hv]
+  | _, _, .paren h, _ => by
+    obtain ⟨n, v, hv⟩ := paren_acc h
+    exact ⟨_, Or.inl rfl, n, v, hv⟩
+/-- … a `paren-expr` (exactly, whatever follows) -/
+theorem paren_acc : ∀ {i r : List Char}, ParenExpr 𝔸 i r → ∃ n v, ∀ f, n ≤ f → valueExpr f i = .ok v r
+  | _, _, @ParenExpr.mk _ i i1 i2 r hs1 ha hs2 => by
+    obtain ⟨hfa, hclose⟩ := close_follow hs2
+    obtain ⟨r', hafter, n, e, he⟩ := add_acc ha hfa
+    have hsk1 : skipSpaces i = i1 := skipSpaces_star_sp hs1 (head_stop (add_head ha))
+    refine ⟨n + 1, .paren e, ?_⟩
+    intro f hf
+    obtain ⟨g, rfl⟩ : ∃ g, f = g + 1 := ⟨f - 1, by omega⟩
+    rw [valueExpr_cons_paren, hsk1, he g (by omega)]
+    simp only
+    rw [hafter.skip, hclose]
+    rfl
+/-- `add_expr` accepts a documented `add-expr` -/
+theorem add_acc : ∀ {i r : List Char}, AddExpr 𝔸 i r → FA r →
+    ∃ r', After r r' ∧ ∃ n e, ∀ f, n ≤ f → addExpr f i = .ok e r'
+  | _, _, .mk hm hrest, hf => by
+    obtain ⟨m', ham, n1, e1, h1⟩ := mul_acc hm (addRest_follow hrest hf)
+    obtain ⟨r', har, n2, e2, h2⟩ := addRest_acc hrest hf m' ham e1
+    refine ⟨r', har, n1 + n2 + 1, e2, ?_⟩
+    intro f hf
+    obtain ⟨g, rfl⟩ : ∃ g, f = g + 1 := ⟨f - 1, by omega⟩
+    rw [addExpr_succ, h1 g (by omega)]
+    exact h2 g (by omega)
+/-- the fold loop of `add_expr` on `(sp* [+-] sp* mul-expr)*` -/
+theorem addRest_acc : ∀ {m r : List Char}, AddRest 𝔸 m r → FA r → ∀ m', After m m' → ∀ l : Expr,
+    ∃ r', After r r' ∧ ∃ n e, ∀ f, n ≤ f → addLoop f l m' = .ok e r'
+  | _, _, .nil _, hf, m', ham, l => by
+    refine ⟨m', ham, 1, l, ?_⟩
+    intro f hf'
+    obtain ⟨g, rfl⟩ : ∃ g, f = g + 1 := ⟨f - 1, by omega⟩
+    rw [addLoop_succ, ham.sepOp, hf.2]
+  | _, _, @AddRest.cons _ m i1 i2 i3 r c hs1 hc hs2 hm hrest, hf, m', ham, l => by
+    obtain ⟨s, rfl, hsp⟩ := star_sp hs1
+    have hsk : skipSpaces (s ++ c :: i1) = c :: i1 :=
+      (follow_blank_op hsp (by rcases hc with rfl | rfl <;> simp)).2
+    have hsk2 : skipSpaces i1 = i2 := skipSpaces_star_sp hs2 (head_stop (mul_head hm))
+    obtain ⟨i3', h3, n1, e1, he1⟩ := mul_acc hm (addRest_follow hrest hf)
+    obtain ⟨op, hop⟩ : ∃ op, addOp c = some op := by rcases hc with rfl | rfl <;> exact ⟨_, rfl⟩
+    obtain ⟨r', har, n2, e2, he2⟩ := addRest_acc hrest hf i3' h3 (.bin op l e1)
+    refine ⟨r', har, n1 + n2 + 1, e2, ?_⟩
+    intro f hf'
+    obtain ⟨g, rfl⟩ : ∃ g, f = g + 1 := ⟨f - 1, by omega⟩
+    have hsep : sepOp addOp m' = some (op, i2) := by
+      rw [ham.sepOp]
+      simp only [ExprSyntax.sepOp, hsk, hop, Option.map, hsk2]
+    rw [addLoop_succ, hsep]
+    simp only
+    rw [he1 g (by omega)]
+    exact he2 g (by omega)
+/-- `mul_expr` accepts a documented `mul-expr` -/
+theorem mul_acc : ∀ {i r : List Char}, MulExpr 𝔸 i r → FM r →
+    ∃ r', After r r' ∧ ∃ n e, ∀ f, n ≤ f → mulExpr f i = .ok e r'
+  | _, _, .mk hu hrest, hf => by
+    obtain ⟨m', ham, n1, e1, h1⟩ := unary_acc hu (mulRest_follow hrest hf)
+    obtain ⟨r', har, n2, e2, h2⟩ := mulRest_acc hrest hf m' ham e1
+    refine ⟨r', har, n1 + n2 + 1, e2, ?_⟩
+    intro f hf
+    obtain ⟨g, rfl⟩ : ∃ g, f = g + 1 := ⟨f - 1, by omega⟩
+    rw [mulExpr_succ, h1 g (by omega)]
+    exact h2 g (by omega)
+/-- the fold loop of `mul_expr` -/
+theorem mulRest_acc : ∀ {m r : List Char}, MulRest 𝔸 m r → FM r → ∀ m', After m m' → ∀ l : Expr,
+    ∃ r', After r r' ∧ ∃ n e, ∀ f, n ≤ f → mulLoop f l m' = .ok e r'
+  | _, _, .nil _, hf, m', ham, l => by
+    refine ⟨m', ham, 1, l, ?_⟩
+    intro f hf'
+    obtain ⟨g, rfl⟩ : ∃ g, f = g + 1 := ⟨f - 1, by omega⟩
+    rw [mulLoop_succ, ham.sepOp, hf.2]
+  | _, _, @MulRest.cons _ m i1 i2 i3 r c hs1 hc hs2 hu hrest, hf, m', ham, l => by
+    obtain ⟨s, rfl, hsp⟩ := star_sp hs1
+    have hsk : skipSpaces (s ++ c :: i1) = c :: i1 :=
+      (follow_blank_op hsp (by rcases hc with rfl | rfl <;> simp)).2
+    have hsk2 : skipSpaces i1 = i2 := skipSpaces_star_sp hs2 (head_stop (unary_head hu))
+    obtain ⟨i3', h3, n1, e1, he1⟩ := unary_acc hu (mulRest_follow hrest hf)
+    obtain ⟨op, hop⟩ : ∃ op, mulOp c = some op := by rcases hc with rfl | rfl <;> exact ⟨_, rfl⟩
+    obtain ⟨r', har, n2, e2, he2⟩ := mulRest_acc hrest hf i3' h3 (.bin op l e1)
+    refine ⟨r', har, n1 + n2 + 1, e2, ?_⟩
+    intro f hf'
+    obtain ⟨g, rfl⟩ : ∃ g, f = g + 1 := ⟨f - 1, by omega⟩
+    have hsep : sepOp mulOp m' = some (op, i2) := by
+      rw [ham.sepOp]
+      simp only [ExprSyntax.sepOp, hsk, hop, Option.map, hsk2]
+    rw [mulLoop_succ, hsep]
+    simp only
+    rw [he1 g (by omega)]
+    exact he2 g (by omega)
+/-- `unary_expr` accepts a documented `unary-expr` -/
+theorem unary_acc : ∀ {i r : List Char}, UnaryExpr 𝔸 i r → FU r →
+    ∃ r', After r r' ∧ ∃ n e, ∀ f, n ≤ f → unaryExpr f i = .ok e r'
+  | _, _, .neg hv, hf => by
+    obtain ⟨r', ha, n, v, h⟩ := value_acc hv hf
+    refine ⟨r', ha, n + 1, .neg (.val v), ?_⟩
+    intro f hf'
+    obtain ⟨g, rfl⟩ : ∃ g, f = g + 1 := ⟨f - 1, by omega⟩
+    rw [unaryExpr_cons_neg, h g (by omega)]
+  | _, _, @UnaryExpr.pos _ i r hv, hf => by
+    by_cases hm : ∃ t, i = '-' :: t
+    · -- a signed literal in operand position: the parser reads the sign as the unary operator (E1 only)
+      obtain ⟨t, rfl⟩ := hm
+      cases hv with
+      | paren hp => cases hp
+      | amount ha =>
+        obtain ⟨r', hafter, v, hv'⟩ := amount_acc_unsigned ha hf
+        obtain ⟨d, t', rfl, hd⟩ := amountExpr_unsigned_head ha
+        have hne : d ≠ '(' := by intro e; subst e; revert hd; decide
+        refine ⟨r', hafter, 2, .neg (.val v), ?_⟩
+        intro f hf'
+        obtain ⟨g, rfl⟩ : ∃ g, f = g + 1 + 1 := ⟨f - 2, by omega⟩
+        rw [unaryExpr_cons_neg, valueExpr_other _ _ hne, hv']
+    · obtain ⟨r', ha, n, v, h⟩ := value_acc hv hf
+      obtain ⟨c, t, he, hc⟩ := value_head hv
+      have hc' : c ≠ '-' := fun e => hm ⟨t, by rw [he, e]⟩
+      refine ⟨r', ha, n + 1, .val v, ?_⟩
+      intro f hf'
+      obtain ⟨g, rfl⟩ : ∃ g, f = g + 1 := ⟨f - 1, by omega⟩
+      have := h g (by omega)
+      rw [he] at this ⊢
+      rw [unaryExpr_other _ _ hc', this]
+end
+
+/-! ## 4. the model's `value_expr` -/
+
+/-- **`expr::value_expr` accepts every documented `value-expr`** that is followed by something that continues neither a
+number nor a commodity; it stops where the expression ends, or after the blanks that follow it. -/
+theorem valueExpr_accept {i r : List Char} (h : ValueExpr 𝔸 i r) (hf : ExprFollow r = true) :
+    ∃ r', After r r' ∧ ∃ v, Parse.valueExpr i = .ok v r' := by
+  obtain ⟨r', ha, n, v, hv⟩ := value_acc h hf
+  exact ⟨r', ha, v, by simp only [Parse.valueExpr, parseValueExpr_of_eventually hv, Parse.ofPRes]⟩
+
+/-! ## non-vacuity: `(1 + 2*3) USD`-like texts are derivations -/
+
+theorem amountExpr_intro {s : List Char} (r : List Char) (hcd : commaDecimal (s ++ r) r)
+    (hok : Spec.Representable s = true) : (commaDecimal.sat (𝔸).numOk) (s ++ r) r := ⟨hcd, s, rfl, hok⟩
+
+end Okane.DocAccept
